@@ -519,10 +519,16 @@ def fresh_bounds_findings(th, ev):
         if fb and cur is not None:
             def parse(line):
                 return dict((m.group(1), m.group(2).strip()) for m in re.finditer(r"\[(.*?) (L.*?)\]", line))
+            def active(x):
+                # 'L v1 v2 .. U w1 w2 ..' -> (current lower bound, current upper bound) = last entries
+                m = re.match(r"^L(.*?) U(.*)$", x + " ")
+                lo, up = m.group(1).split(), m.group(2).split()
+                return (lo[-1] if lo else None, up[-1] if up else None)
             a, b = parse(cur[len("labounds"):]), parse(fb[0][len("freshbounds"):])
-            # same terms with the same lists; terms unknown to one side must have empty lists
+            # the ACTIVE lower / upper bound of every term (bounds of equal value may be stacked differently: their
+            # order in the sorted bound list depends on the declaration order)
             for t in set(a) | set(b):
-                if a.get(t, "L U") != b.get(t, "L U"):
+                if active(a.get(t, "L U")) != active(b.get(t, "L U")):
                     out.append(dict(sig="active-bounds-depend-on-history:%s" % th, index=i,
                                     what="bounds of %s after the history: '%s'; in a fresh solver given the current stack %s: '%s'" % (t, a.get(t), e["stack"], b.get(t))))
                     break
@@ -569,7 +575,7 @@ def confirm(th, atoms, z3decl, f):
     return "cvc5:" + c
 
 
-def shrink(h, exe, sid, th, hdr, atoms, z3decl, ops, sig, budget=120):
+def shrink(h, exe, sid, th, hdr, atoms, z3decl, ops, sig, budget=60):
     """greedy removal of operations while the same signature is reproduced."""
     def fails(o):
         rc, out = run_harness(h, seq_text("s", th, hdr, atoms, o), timeout=60)
